@@ -33,7 +33,8 @@ func init() {
 	register(&Prop{
 		ID:    "C20",
 		Level: "exploration",
-		Nodes: func(tier string) []string { return []string{"race"} },
+		Nodes: func(tier string) []string { return []string{"race", "race-noclmul", "race-noaes"} },
+		Cross: true,
 		Gen:   genC20,
 		Exec:  execC20,
 		Init: func() error {
@@ -43,7 +44,7 @@ func init() {
 		},
 		QuickSecs:    40,
 		ThoroughSecs: 900,
-		RunsPerJob:   6,
+		RunsPerJob:   3,
 		Rule: "a run creates fresh shared objects (SM2 private key, ECDH private key, SM9 sign/encrypt master and user keys, SM4 block + GCM AEAD, lazily-parsed certificate pools) and 2-6 tasks; the program is the schedule: the ordered list of (task, operation) releases. " +
 			"abstract history = ordered list of (task, op kind, first-use-or-steady flag); non-trivial = at least two different tasks touch the same shared object; distinct = distinct abstract histories",
 		Real: []string{"sm2", "ecdh", "sm9 + internal/sm9 + bn256", "sm4 + internal/sm4 (GCM, CBC, CTR, ECB constructors)", "sm3", "smx509 (CertPool, Verify)", "Go race detector (happens-before monitor)"},
@@ -60,7 +61,7 @@ var c20Kinds = []string{
 	"ecdh.pub", "ecdh.ecdh", "ecdh.mqv",
 	"sm9.sign", "sm9.verify", "sm9.wrap", "sm9.unwrap", "sm9.enc", "sm9.dec", "sm9.genuser", "sm9.pub",
 	"sm4.block", "sm4.gcm", "sm4.newgcm", "sm4.cbc", "sm4.ctr", "sm4.ecb",
-	"sm3.sum", "pool.verify", "fresh.sm2", "fresh.sm9", "fresh.ecdh",
+	"sm3.sum", "pool.verify", "fresh.sm2", "fresh.sm9", "fresh.ecdh", "fresh.sm9enc", "fresh.sm4", "fresh.x509", "fresh.sm9parse",
 }
 
 var c20Group = map[string]string{}
@@ -83,6 +84,25 @@ func genC20(r *sim.Rand, tier string) *sim.Program {
 	nt := r.Range(2, 6)
 	p.SetC("tasks", nt)
 	p.SetCB("seed", r.Bytes(32))
+	if r.Chance(1, 4) {
+		// singleton program: no shared world is built in the scheduler goroutine; every task's FIRST operation
+		// constructs and uses private objects, so that - when this is the first run of the worker process, as it
+		// always is on replay - the process-wide lazily initialised singletons (curve parameters, generator
+		// tables) see their first use from several tasks
+		fresh := []string{"fresh.sm2", "fresh.sm9", "fresh.ecdh", "fresh.sm9enc", "fresh.sm4", "fresh.x509", "fresh.sm9parse"}
+		k := fresh[r.Intn(len(fresh))]
+		same := r.Chance(2, 3)
+		for _, t := range r.Perm(nt) {
+			if !same {
+				k = fresh[r.Intn(len(fresh))]
+			}
+			p.Add(k, t, r.Intn(1<<30)).WithB(r.Bytes(r.PickInt(8, 16, 32)))
+		}
+		for i := r.Intn(nt + 1); i > 0; i-- {
+			p.Add(fresh[r.Intn(len(fresh))], r.Intn(nt), r.Intn(1<<30)).WithB(r.Bytes(16))
+		}
+		return p
+	}
 	// swarm: enabled groups (sm9 is expensive: enabled less often and with few ops)
 	groups := []string{}
 	if r.Chance(2, 3) {
@@ -516,6 +536,63 @@ func c20Do(w *c20World, kind string, opseed int, msg []byte) (out []byte) {
 			return errb(err)
 		}
 		return append(sig, fmt.Sprint(sm9.VerifyASN1(m.PublicKey(), msg, 1, msg, sig))...)
+	case "fresh.sm9enc":
+		m, err := sm9.GenerateEncryptMasterKey(&sim.ScriptReader{Data: scalarFrom(msg, "fem")})
+		if err != nil {
+			return errb(err)
+		}
+		u, err := m.GenerateUserKey(msg, 3)
+		if err != nil {
+			return errb(err)
+		}
+		key, ct, err := sm9.WrapKey(rd, m.PublicKey(), msg, 3, 32)
+		if err != nil {
+			return errb(err)
+		}
+		k2, err := sm9.UnwrapKey(u, msg, ct, 32)
+		if err != nil {
+			return errb(err)
+		}
+		return append(append(key, k2...), ct...)
+	case "fresh.sm9parse":
+		// master keys derived from their serialised form (public key = base-point multiplication)
+		d := scalarFrom(msg, "fsp")
+		der := append([]byte{0x02, 0x20}, d...)
+		sk, err := sm9.UnmarshalSignMasterPrivateKeyASN1(der)
+		if err != nil {
+			return errb(err)
+		}
+		ek, err := sm9.UnmarshalEncryptMasterPrivateKeyASN1(der)
+		if err != nil {
+			return errb(err)
+		}
+		return append(sk.PublicKey().Bytes(), ek.PublicKey().Bytes()...)
+	case "fresh.sm4":
+		b, err := sm4.NewCipher(derive(msg, "fk", 16))
+		if err != nil {
+			return errb(err)
+		}
+		a, err := cipher.NewGCM(b)
+		if err != nil {
+			return errb(err)
+		}
+		o := a.Seal(nil, derive(msg, "fn", 12), msg, nil)
+		e := make([]byte, 64)
+		gcipher.NewECBEncrypter(b).CryptBlocks(e, derive(msg, "fe", 64))
+		return append(o, e...)
+	case "fresh.x509":
+		leaf, err := smx509.ParseCertificatePEM([]byte(fixtures.LeafPEM))
+		if err != nil {
+			return errb(err)
+		}
+		inter, err := smx509.ParseCertificatePEM([]byte(fixtures.IntermediatePEM))
+		if err != nil {
+			return errb(err)
+		}
+		if err := leaf.CheckSignatureFrom(inter); err != nil {
+			return errb(err)
+		}
+		return leaf.SerialNumber.Bytes()
 	case "fresh.ecdh":
 		k, err := ecdh.P256().NewPrivateKey(scalarFrom(msg, "fe"))
 		if err != nil {
@@ -575,6 +652,10 @@ func execC20(t *testing.T, p *sim.Program, c *sim.Ctx) {
 		if g != "fresh" && len(taskOfGroup[g]) >= 2 {
 			c.Nontriv = true
 			c.Hit("probe:shared-object-used-by>=2-tasks")
+		}
+		if g == "fresh" && len(taskOfGroup[g]) >= 2 {
+			c.Nontriv = true
+			c.Hit("probe:singleton-first-use-from>=2-tasks")
 		}
 	}
 	// concurrent phase: the program order is the schedule
